@@ -1694,8 +1694,33 @@ class Interp:
                 except _Continue:
                     continue
             return
+        # python iterates a list by position over the LIVE object (a body that removes items makes the loop skip some) and refuses
+        # to go on over a dict whose size changed
+        if isinstance(src, Obj):
+            m = src.cls.find_method('__iter__')
+            if m is not None:
+                src = self.invoke(m, [src], {})
+        live = src if isinstance(src, list) else getattr(src, 'live', None)
+        ldict = src if isinstance(src, dict) else getattr(src, 'live_dict', None)
+        if isinstance(live, list):
+            idx = getattr(src, 'pos', 0) if live is not src else 0
+            while idx < len(live):
+                item = live[idx]
+                idx += 1
+                self.assign(s.target, item, fr)
+                try:
+                    self.block(s.body, fr)
+                except _Break:
+                    return
+                except _Continue:
+                    continue
+            self.block(s.orelse, fr)
+            return
         items = self.iterate(src)
+        n0 = len(ldict) if isinstance(ldict, dict) else None
         for item in items:
+            if n0 is not None and len(ldict) != n0:
+                raise Raised('RuntimeError', where='dictionary changed size during iteration')
             self.assign(s.target, item, fr)
             try:
                 self.block(s.body, fr)
